@@ -540,7 +540,7 @@ theorem Inv2.stepL {s t : St} {ev : Ev} (h1 : Inv1 s) (h : Inv2 s) (hs : PE.step
 
 theorem Inv2.step {s t : St} {ev : Ev} (h1 : Inv1 s) (h : Inv2 s) (hs : PE.step s ev = some t) : Inv2 t := by
   cases ev <;> simp only [PE.step] at hs <;>
-    first | exact h.stepEnv h1 hs | exact h.stepP h1 hs | exact h.stepE h1 hs | exact h.stepG h1 hs | exact h.stepL h1 hs
+    first | exact h.stepEnv h1 hs | exact h.stepP h1 hs | exact h.stepE h1 hs | exact h.stepG h1 hs | exact h.stepL h1 hs | exact (stepD_eq hs) ▸ h
 
 end Terway.PE
 
